@@ -13,7 +13,7 @@ def main(inp, outp):
 
     common.setup_env(jit=None)
     req = json.load(open(inp))
-    res = dict(kernels=[], runs=[])
+    res = dict(kernels=[], runs=[], cells=[])
     for k in req.get("kernels", []):
         mod, name = k["name"].rsplit(".", 1)
         f = getattr(importlib.import_module(mod), name)
@@ -36,6 +36,13 @@ def main(inp, outp):
             res["runs"].append(dict(ok=o))
         except Exception as e:
             res["runs"].append(dict(error=f"{type(e).__name__}: {e}"[:300]))
+    if req.get("cells"):
+        from harness import lattice
+
+        res["cells"] = []
+        for c in req["cells"]:
+            out, vals = lattice.structural_values(tuple(c))
+            res["cells"].append(dict(outcome=out, values=[repr(v) for v in vals]))
     json.dump(res, open(outp, "w"))
 
 
